@@ -2,11 +2,11 @@ package main
 
 import (
 	"encoding/json"
-	"runtime/pprof"
 	"fmt"
 	"os"
 	"path/filepath"
 	"regexp"
+	"runtime/pprof"
 	"sort"
 	"strconv"
 	"strings"
@@ -33,19 +33,20 @@ func envOr(k, d string) string {
 
 // HarnessSpec is one entry of harness/registry.json
 type HarnessSpec struct {
-	Prop    string // property id
-	Func    string // harness entry point (Go function name in the overlaid package)
-	Pkg     string // package directory relative to the repository root ("." for package main)
-	Solver  string // z3 | cvc5
-	Split   int    // decision depth at which the path tree is cut into shard subtrees
-	Shards  [2]int // number of shards: quick, thorough
-	Timeout [2]int // seconds per shard: quick, thorough
-	Tier    string // "" = both tiers, "thorough" = thorough only
-	Replay  string // "" = native vector replay; "none" = engine-only (map order etc.)
-	Desc    string // what is driven and what is asserted
-	Units   []string
-	Outside []string
-	Stubs   []string
+	Prop     string // property id
+	Func     string // harness entry point (Go function name in the overlaid package)
+	Pkg      string // package directory relative to the repository root ("." for package main)
+	Solver   string // z3 | cvc5
+	Split    int    // decision depth at which the path tree is cut into shard subtrees
+	Shards   [2]int // number of shards: quick, thorough
+	Timeout  [2]int // seconds per shard: quick, thorough
+	Tier     string // "" = both tiers, "thorough" = thorough only
+	Replay   string // "" = native vector replay; "none" = engine-only (map order etc.)
+	Desc     string // what is driven and what is asserted
+	Units    []string
+	Outside  []string
+	Stubs    []string
+	MaxSteps int // SSA instruction budget per path (0 = default)
 }
 
 func loadRegistry() []HarnessSpec {
@@ -139,7 +140,12 @@ func buildOverlay(withTest bool, funcsByPkg map[string][]string) map[string][]by
 		ov[filepath.Join(repoDir, dir, "zz_verif_rt.go")] = []byte(strings.Replace(string(rt), "PKGNAME", pkgName, 1))
 		if withTest {
 			var sb strings.Builder
+			seenFn := map[string]bool{}
 			for _, fn := range funcsByPkg[dir] {
+				if seenFn[fn] {
+					continue // a harness registered under two properties
+				}
+				seenFn[fn] = true
 				fmt.Fprintf(&sb, "\t%q: %s,\n", fn, fn)
 			}
 			t := strings.Replace(string(tt), "PKGNAME", pkgName, 1)
@@ -205,6 +211,9 @@ func newExec(prog *ssa.Program, pkg *ssa.Package, spec HarnessSpec, tier int, ac
 	x := &Exec{prog: prog, harnessPkg: pkg, solver: NewSolver(spec.Solver), funcsSeen: map[string]bool{}, res: res,
 		splitDepth: spec.Split, tier: tier, activeKnown: active, maxSteps: 4000000,
 		globals: map[*ssa.Global]Obj{}, inited: map[string]bool{}, quoted: map[*Str]bool{}, parseCache: map[string]Value{}}
+	if spec.MaxSteps > 0 {
+		x.maxSteps = spec.MaxSteps
+	}
 	if s := os.Getenv("GOSYM_MAXSTEPS"); s != "" {
 		x.maxSteps, _ = strconv.Atoi(s)
 	}
